@@ -17,11 +17,14 @@ from vlib import *
 import projlib
 
 OSES = ["linux", "windows", "darwin", "android", "ios", "illumos", "plan9"]
-ARCHS = ["amd64", "arm64", "386", "wasm"]
+ARCHS = ["amd64", "arm64", "386", "wasm",
+         # names that are prefixes of one another must stay apart: arm/arm64, mips/mips64/mips64le/mipsle, ppc64/ppc64le
+         "arm", "mips", "mips64", "mips64le", "mipsle", "ppc64", "ppc64le", "riscv64", "s390x", "loong64"]
+GO_LIST_ARCHS = ["amd64", "arm64", "386", "wasm"]
 
 # ---------------------------------------------------------------- expressions
 TAGS = (["mage"] * 7 + ["linux", "windows", "darwin", "freebsd", "android", "ios", "solaris", "illumos", "plan9", "js"]
-        + ["amd64", "arm64", "386", "arm", "wasm"] + ["unix"] * 2 + ["cgo"] * 2
+        + ["amd64", "arm64", "386", "arm", "wasm", "arm", "mips", "mips64", "mips64le", "mipsle", "ppc64", "ppc64le", "riscv64", "s390x"] + ["unix"] * 2 + ["cgo"] * 2
         + ["ignore", "gc", "gccgo", "go1.18", "go1.99", "foo", "bar", "integration", "tools"])
 
 
@@ -132,7 +135,8 @@ STEMS = ["magefile", "a", "b", "build", "tasks", "util", "mage_helpers", "x_y", 
          "release+notes", "deploy staging", "more@tasks", "k=v", "a-b", "x.y", "\u00fcber", "\u65e5\u672c", "UPPER", "Mixed_Case", "it's", "semi;colon", "dollar$x"]
 SUFFIXES = ([""] * 10 + ["_linux", "_windows", "_darwin", "_amd64", "_arm64", "_windows_amd64", "_linux_arm64", "_android", "_ios",
                          "_solaris", "_unix", "_test", "_linux_test", "_foo", "_amd64_linux", "_js_wasm", "_plan9_386", "_darwin_arm64",
-                         "_linux_amd64", "_test_linux", "_wasm", "_386", "_illumos", "_freebsd_amd64", "_linux_foo", "_"])
+                         "_linux_amd64", "_test_linux", "_wasm", "_386", "_illumos", "_freebsd_amd64", "_linux_foo", "_",
+                         "_arm", "_linux_arm", "_mips", "_mips64", "_mips64le", "_mipsle", "_ppc64", "_ppc64le", "_linux_ppc64", "_riscv64", "_s390x", "_ARM", "_x86_64"])
 ODD_NAMES = ["a.b_linux.go", "gen.windows.go", "_x.go", ".hid.go", "_magefile_linux.go", "README.md", "notes.txt", "x.go.bak", "run.sh", "y_windows.txt",
              "linux_amd64.go", "amd64.go", "test.go", "_test.go", "x__linux.go", "GO.GO", "q.go.go",
              "-dash-first.go", "+plus.go", "_\u00fcber.go", ".\u65e5\u672c.go", "L" + "o" * 180 + "ng_linux.go", "Linux_AMD64.go", "tab\tname.go", " leading space.go"]
@@ -388,7 +392,8 @@ def gen_request(rng, host):
     elif r < 0.96:
         goos, goarch = host
     else:
-        goos, goarch = rng.choice(["garbage", "Linux", "unix"]), rng.choice(["junk", "amd64"])
+        # spellings that are not platform names are taken literally (nothing is trimmed, lower-cased, translated or completed)
+        goos, goarch = rng.choice(["garbage", "Linux", "unix", "macos", " linux", "lin", "win"]), rng.choice(["junk", "amd64", "ARM", " arm", "arm ", "x86_64", "aarch64", "ar", "mips6", "ppc", "amd"])
     return {"goos": goos, "goarch": goarch, "isdir": rng.random() < 0.15}
 
 
@@ -750,6 +755,34 @@ exec go "$@"
                 continue
             jobs.append({"kind": "attrs", "top": top, "sub": sub, "attrs": attrs, "env": envs[n % len(envs)], "plat": host, "flags": ("", ""),
                          "history": hist3 + ([cstep] if n % 3 == 0 else []), "gocmd": n % 2 == 0, "goplan": ""})
+        # platform NAMES: architectures whose names are prefixes of one another, with files that tell them apart; odd spellings
+        L = host[0] if host[0] == "linux" else "linux"
+        pairs = [("arm", "arm64"), ("ppc64", "ppc64le"), ("mips64", "mips64le"), ("mips", "mips64")]
+        if not ctx.quick:
+            pairs += [("arm64", "arm"), ("ppc64le", "ppc64"), ("mipsle", "mips"), ("mips64le", "mips64"), ("386", "amd64"), ("riscv64", "s390x"), ("loong64", "amd64")]
+        for n, (A, B) in enumerate(pairs):
+            top = D([e2e_file("t_%s.go" % A, M, "Onlya"), e2e_file("t_%s.go" % B, M, "Onlyb"), e2e_file("x.go", ("and", M, ("tag", A)), "Exa"),
+                     e2e_file("y.go", ("and", M, ("tag", B)), "Exb"), e2e_file("z.go", ("and", M, ("not", ("tag", A))), "Nota"), e2e_file("lib.go", None, "Leaked")])
+            fl = ("" if host[0] == L else L, A)
+            jobs.append({"kind": "compile", "top": top, "sub": None, "env": envs[n % len(envs)], "plat": forced_platform(host, *fl), "flags": fl, "gocmd": True, "goplan": ""})
+        odd = [("", "ARM"), ("", " arm"), ("", "arm "), ("", "x86_64"), ("", "aarch64"), ("macos", ""), ("", "ar"), ("Linux", "")]
+        for n, fl in enumerate(odd if not ctx.quick else odd[:5]):
+            top = D([e2e_file("magefile.go", M, "Build"), e2e_file("t_arm.go", M, "Onlya"), e2e_file("t_arm64.go", M, "Onlyb"), e2e_file("t_amd64.go", M, "Onlyc")])
+            jobs.append({"kind": "compile", "top": top, "sub": None, "env": envs[n % 2], "plat": forced_platform(host, *fl), "flags": fl, "gocmd": n % 2 == 0, "goplan": ""})
+        # constraint lines rewritten IN PLACE (no entry created, removed or renamed) that flip the choice between the directory and
+        # magefiles/, all steps of a project sharing its cache directory
+        sub2 = lambda: D([e2e_file("targets.go", M, "Sub"), e2e_file("plain.go", None, "Plain")])
+        flips = [(D([e2e_file("lib.go", None, "Leaked")]), ("top", e2e_file("lib.go", M, "Leaked"))),                                    # gains the tag: folder -> directory
+                 (D([e2e_file("magefile.go", M, "Build")]), ("top", e2e_file("magefile.go", None, "Build"))),                           # loses it: directory -> folder
+                 (D([e2e_file("magefile.go", ("and", M, ("tag", other_os)), "Build"), e2e_file("lib.go", None, "Leaked")]),
+                  ("top", e2e_file("magefile.go", ("and", M, ("tag", host[0])), "Build"))),                                              # other OS -> host: folder -> directory
+                 (D([e2e_file("lib.go", None, "Leaked"), e2e_file("util.go", ("not", M), "Util")]), ("top", e2e_file("util.go", M, "Util")))]
+        for n, (top, mut) in enumerate(flips):
+            hf = HF0 if n % 2 else {}
+            jobs.append({"kind": "flip", "top": top, "sub": sub2(), "env": envs[n % len(envs)], "plat": host, "flags": ("", ""), "gocmd": n == 0, "goplan": "", "mutations": [mut],
+                         "history": [{"name": "list", "what": "list", "env": hf}, {"name": "run", "what": "run", "env": hf}, {"name": "run-again", "what": "run", "env": hf},
+                                     {"name": "list-after-retag-in-place", "what": "list", "mutate": True, "env": hf}, {"name": "run-after-retag", "what": "run", "env": hf},
+                                     {"name": "run-after-retag-again", "what": "run", "env": HF0}]})
         for n, lj in enumerate(link_jobs):
             jobs.append(dict(lj, kind="links", env=envs[n % len(envs)], plat=host, flags=("", ""), gocmd=(n % 2 == 0), goplan=""))
 
@@ -761,6 +794,21 @@ exec go "$@"
             tgt = top if where == "top" else sub
             tgt["files"] = sorted([x for x in tgt["files"] if x["name"] != f["name"]] + [f], key=lambda x: x["name"].encode())
         return top, sub
+
+    def exe_machine(blob):
+        """the architecture an executable says it is for: ELF (class, byte order, e_machine) or PE machine field"""
+        if blob[:4] == b"\x7fELF" and len(blob) > 20:
+            return ["elf", blob[4], blob[5], int.from_bytes(blob[18:20], "little" if blob[5] == 1 else "big")]
+        if blob[:2] == b"MZ" and len(blob) > 0x40:
+            off = int.from_bytes(blob[0x3c:0x40], "little")
+            if blob[off:off + 4] == b"PE\0\0":
+                return ["pe", int.from_bytes(blob[off + 4:off + 6], "little")]
+        return None
+    ELF = {"amd64": [2, 1, 62], "386": [1, 1, 3], "arm": [1, 1, 40], "arm64": [2, 1, 183], "mips": [1, 2, 8], "mipsle": [1, 1, 8], "mips64": [2, 2, 8],
+           "mips64le": [2, 1, 8], "ppc64": [2, 2, 21], "ppc64le": [2, 1, 21], "riscv64": [2, 1, 243], "s390x": [2, 2, 22], "loong64": [2, 1, 258]}
+    PE = {"amd64": 0x8664, "386": 0x14c, "arm64": 0xaa64, "arm": 0x1c4}
+    rc_, out_, _ = sh(["go", "tool", "dist", "list"], env=goenv(), timeout=60)
+    valid_pairs = {tuple(l.split("/")) for l in out_.split()} if rc_ == 0 and out_.strip() else None
 
     def probe_fails(top, plat):
         """listing the directory itself fails (measured on the unchanged tree, and what Model/Constraints.v says): a .go entry that
@@ -892,7 +940,7 @@ exec go "$@"
                     return sorted(f["name"] for f in d["files"] if re.search(rb"main\." + f["ident"].encode() + rb"(?![A-Za-z0-9_])", blob))
                 o.update({"rc": r["rc"], "cflags": list(cflags), "plat": list(plat), "files": compiled(top) if blob else None,
                           "subfiles": compiled(sub) if blob and sub is not None else [], "magic": blob[:4].hex() if blob else None,
-                          "go_calls": r["go_calls"], "raw": {"stdout": r["out"][-800:], "stderr": r["err"][-800:]}})
+                          "machine": exe_machine(blob), "go_calls": r["go_calls"], "raw": {"stdout": r["out"][-800:], "stderr": r["err"][-800:]}})
                 if blob and r["rc"] == 0 and plat == tuple(host):
                     r2 = mg.run(proj, ["-l"], env=j["env"], exe=out, cache=cache)      # a host binary can say itself what it offers
                     o["listed"] = sorted(projlib.parse_list(r2["out"])["targets"]) if r2["rc"] == 0 else None
@@ -938,11 +986,20 @@ exec go "$@"
                     if o["rc"] == 0:
                         return at + "no file of the project requires the mage tag for %s/%s, but -compile succeeded using %s / %s" % (plat[0], plat[1], o["files"], o["subfiles"]), items
                     continue
+                flags = " ".join(x for x in ("-goos " + repr(cflags[0]) if cflags[0] else "", "-goarch " + repr(cflags[1]) if cflags[1] else "") if x)
+                if valid_pairs is not None and tuple(plat) not in valid_pairs:
+                    # not a platform of the go tool (odd spellings are taken literally): the build cannot succeed
+                    if o["rc"] == 0:
+                        return at + "-compile %s succeeded (%s) although %s/%s is no platform of the go tool; nothing may be trimmed, translated or completed" % (
+                            flags, o["machine"], plat[0], plat[1]), items
+                    continue
                 if o["rc"] != 0:
                     return at + "mage failed (rc=%d): %s" % (o["rc"], o["raw"]["stderr"][-400:]), items
-                magic = {"windows": "4d5a", "linux": "7f454c46", "darwin": "cffaedfe"}[plat[0]]
+                magic = {"windows": "4d5a", "linux": "7f454c46", "darwin": "cffaedfe"}.get(plat[0], "7f454c46")
+                wantm = (["elf"] + ELF[plat[1]]) if (o["machine"] or [None])[0] == "elf" and plat[1] in ELF else (["pe", PE[plat[1]]] if (o["machine"] or [None])[0] == "pe" and plat[1] in PE else None)
+                if wantm is not None and o["machine"] != wantm:
+                    return at + "-compile %s produced an executable for machine %s, %s/%s is %s" % (flags, o["machine"], plat[0], plat[1], wantm), items
                 exp_top, exp_sub = (set(), set(want)) if use_sub else (set(want), set())
-                flags = " ".join(x for x in ("-goos " + cflags[0] if cflags[0] else "", "-goarch " + cflags[1] if cflags[1] else "") if x)
                 if o["files"] is None or set(o["files"]) != exp_top or set(o["subfiles"]) != exp_sub:
                     return at + "-compile %s for %s/%s compiled %s of the directory and %s of magefiles/, the property sentence says %s of the %s" % (
                         flags, plat[0], plat[1], o["files"], o["subfiles"], sorted(want), where), items
@@ -1357,7 +1414,7 @@ def run(ctx):
         sample = [(q, d) for q, d in ((q, dirs[q["di"]]) for q in reqs)
                   if not d["mixed"] and not any(f["broken"] or f["pkg"] != "main" for f in d["files"]) and not q["isdir"]
                   and (go_cgo == supported or not any("cgo" in expr_tags(f["expr"]) for f in d["files"]))
-                  and forced_platform(host, q["goos"], q["goarch"])[0] in OSES and forced_platform(host, q["goos"], q["goarch"])[1] in ARCHS][:400]
+                  and forced_platform(host, q["goos"], q["goarch"])[0] in OSES and forced_platform(host, q["goos"], q["goarch"])[1] in GO_LIST_ARCHS][:400]
 
         def third_opinion(qd):
             q, d = qd
